@@ -804,6 +804,41 @@ func c15Run(c *core.Ctx) {
 			}
 		}
 	}
+	// packet filter contents of every length the one-octet length field can carry (0..255 octets): the fewest components
+	// whose serialised sizes sum to the length (coin change over the 18 types' sizes), as the only filter of a rule and
+	// between two small filters, for the creating / modifying operations
+	{
+		type pick struct {
+			n    int
+			last byte
+		}
+		best := make([]pick, 256)
+		for l := 1; l < 256; l++ {
+			best[l].n = 1 << 30
+			for _, t := range qCompTypes {
+				sz := 1 + qCompLen[t]
+				if sz <= l && best[l-sz].n+1 < best[l].n {
+					best[l] = pick{best[l-sz].n + 1, t}
+				}
+			}
+		}
+		for l := 0; l < 256; l++ {
+			if !mine() {
+				continue
+			}
+			var cs []qComp
+			for rest := l; rest > 0; rest -= 1 + qCompLen[best[rest].last] {
+				t := best[rest].last
+				vs := qCompValues(t)
+				cs = append(cs, qComp{Type: t, Value: vs[len(cs)%len(vs)]})
+			}
+			for _, op := range []uint8{1, 3, 4} {
+				rules(qRule{ID: 3, Op: op, Filters: []qFilter{{ID: 2, Dir: 3, Comps: cs}}, Precedence: 9, QFI: 7})
+				rules(qRule{ID: 3, Op: op, DQR: true, Filters: []qFilter{simple, {ID: 2, Dir: 1, Comps: cs}, simple}, Precedence: 9, QFI: 7},
+					qRule{ID: 4, Op: 1, Filters: []qFilter{simple}, Precedence: 1, QFI: 1})
+			}
+		}
+	}
 	// rich rules: k filters with m components each (long component lists, large rules), alone and between small rules
 	for k := 1; k <= 15; k++ {
 		if !mine() {
